@@ -1072,7 +1072,6 @@ package calendar
 //@   ghost c *Solar = jq.NextDay(offset+40) @ offset#4
 //@   use solarOrder(c, lunar.solar) @ offset#4
 
-
 //@ # ================================================================ C10: the reverse lookup's final filter
 //@ # ListSolarFromBaZiBySectAndBaseYear itself is outside the verified subset (arbitrary input strings, time.Now, an
 //@ # unbounded result list) and is covered by the bounded stand-in bazi_reverse. What is proved here is that the strings
